@@ -18,11 +18,13 @@ LEVEL = 'exploration'
 RULE = ('each case = 10-40 steps on one endpoint: update_settings with one or many keys (valid, or one invalid value among '
         'valid ones placed first/middle/last), 0-4 SETTINGS frames in flight incl. an update before the initial ACK, ACKs '
         'delivered at arbitrary later steps, received SETTINGS with known / unknown (0,7,9..0xffff) / duplicate ids, traffic in '
-        'between; in-force values measured by behaviour probes on clones right before and after every ACK; non-trivial = at '
+        'between (streams with used send windows and promised streams present when the peer changes INITIAL_WINDOW_SIZE); 8% of the cases are '
+        'servers upgraded from HTTP/1.1 whose HTTP2-Settings header must be in force at once; in-force values measured by behaviour probes on clones right before and after every ACK; non-trivial = at '
         'least one ACK event and one probe set judged; distinct = hash of the step list')
 MINIMA = {'ack_events_judged': 3000, 'remote_settings_events_judged': 3000, 'probe_sets': 3000, 'raising_updates_judged': 800,
           'multi_frame_in_flight_acks': 800, 'same_key_twice_in_flight': 200, 'empty_updates_sent': 300,
-          'reserved_stream_present_at_remote_settings': 150}
+          'reserved_stream_present_at_remote_settings': 150, 'stream_send_window_expected_negative': 40,
+          'upgrade_settings_headers_judged': 100}
 
 DEFAULT_LOCAL = {1: 4096, 3: 100, 4: 65535, 5: 16384, 6: 65536, 8: 0}
 VALUES = {1: [0, 100, 4096, 8192], 2: [0, 1], 3: [0, 1, 2, 3, 5], 4: [0, 1, 1000, 40000, 65535], 5: [16384, 16385, 20000, 40000],
@@ -178,7 +180,80 @@ def probe(h, model, rep, fail, when):
     return True
 
 
+def run_upgrade_case(rng, rep):
+    """The settings in an HTTP2-Settings header are a SETTINGS frame like any other: in force, with everything derived from
+    them, as soon as initiate_upgrade_connection returns."""
+    import base64
+    import hpack
+    import struct
+    keys = rng.sample([1, 3, 4, 5, 6], rng.choice([1, 2, 3, 5]))
+    pairs = [(k, rng.choice(VALUES[k])) for k in keys]
+    if rng.random() < 0.3:
+        pairs.append((rng.choice([9, 0x7f]), 5))
+    payload = b''.join(struct.pack('>HI', k, v) for k, v in pairs)
+    header = base64.urlsafe_b64encode(payload).rstrip(b'=')
+    t = core.Tap(core.make_conn(False), keep_log=True)
+    r = t.call('initiate_upgrade_connection', header)
+    w = {'settings_in_header': pairs, 'log_tail': t.tail_log(3)}
+    if r.exc is not None:
+        rep.violation('C11:upgrade-settings-rejected:' + core.exc_key(r.exc), repr(r.exc), w)
+        return
+    rep.count('upgrade_settings_headers_judged')
+    rep.nontrivial(('upgrade', tuple(pairs)))
+    got = dict(DEFAULT_LOCAL)
+    got.pop(3)
+    got.update(dict(pairs))
+    for k, v in dict(pairs).items():
+        try:
+            cur = t.c.remote_settings[k]
+        except Exception as e:      # noqa
+            cur = repr(e)
+        if cur != v:
+            rep.violation('C11:remote-setting-not-applied-at-once', 'remote_settings[%d] == %r right after the upgrade carried %d' % (k, cur, v), w)
+            return
+    mfs, iws, hts = got[5], got[4], got[1]
+    if getattr(t.c, 'max_outbound_frame_size', mfs) != mfs:
+        rep.violation('C11:max_outbound_frame_size-not-switched', 'max_outbound_frame_size %r after an upgrade with MAX_FRAME_SIZE %d' %
+                      (t.c.max_outbound_frame_size, mfs), w)
+        return
+    # behaviour: the response on stream 1, sized by the client's limits, goes out right now
+    hs = RESP + [(b'x-upgraded', b'1')]
+    r = t.call('send_headers', 1, hs)
+    if r.exc is not None:
+        rep.violation('C11:upgrade:response-refused:' + core.exc_key(r.exc), repr(r.exc), w)
+        return
+    mdec = hpack.Decoder()
+    mdec.max_allowed_table_size = hts
+    blk = b''.join(f.data or b'' for f in r.frames if f.type in (wire.HEADERS, wire.CONTINUATION))
+    try:
+        dec = [(bytes(n), bytes(v)) for n, v in mdec.decode(blk, raw=True)]
+    except Exception as e:      # noqa
+        rep.violation('C11:in-force-value-differs:HEADER_TABLE_SIZE:after-upgrade',
+                      'first block after an upgrade with HEADER_TABLE_SIZE %d does not decode under that limit: %r' % (hts, e), w)
+        return
+    if dec != hs:
+        rep.violation('C11:upgrade:response-block-wrong', 'decoded %r' % dec, w)
+        return
+    n = min(mfs, iws, 65535)
+    if n > 0:
+        r = t.call('send_data', 1, b'u' * n)
+        df = [f for f in r.frames if f.type == wire.DATA]
+        if r.exc is not None or len(df) != 1 or df[0].length != n:
+            rep.violation('C11:in-force-value-differs:%s:after-upgrade' % ('MAX_FRAME_SIZE' if isinstance(r.exc, h2.exceptions.FrameTooLargeError)
+                                                                          else 'INITIAL_WINDOW_SIZE' if r.exc else 'MAX_FRAME_SIZE'),
+                          'send_data(1, %d octets) after an upgrade with MAX_FRAME_SIZE %d, INITIAL_WINDOW_SIZE %d: exc %r, frames %s' %
+                          (n, mfs, iws, r.exc, [f.brief() for f in r.frames]), w)
+            return
+    if iws < 65535:
+        lw = t.call('local_flow_control_window', 1)
+        if lw.exc is not None or lw.value != iws - n:
+            rep.violation('C11:in-force-value-differs:INITIAL_WINDOW_SIZE:after-upgrade', 'local_flow_control_window(1) = %r, expected %d' %
+                          (lw.value if lw.exc is None else lw.exc, iws - n), w)
+
+
 def run_case(idx, rng, tier, rep):
+    if rng.random() < 0.08:
+        return run_upgrade_case(rng, rep)
     e_client = rng.random() < 0.5
     h = scen.Hostile(e_client, keep_log=True, handshake=False)
     t = h.t
@@ -345,6 +420,30 @@ def run_case(idx, rng, tier, rep):
                     rep.count('reserved_stream_present_at_remote_settings')
             except AssertionError:
                 pass
+        try:
+            room = h.c.open_inbound_streams + 1 <= h.c.local_settings.max_concurrent_streams and \
+                h.c.open_outbound_streams + 1 <= h.c.remote_settings.max_concurrent_streams
+        except Exception:       # noqa
+            room = False
+        if room and quiet and rng.random() < 0.3:
+            # a stream on which E has already used part (or most) of its send window: a lowered INITIAL_WINDOW_SIZE may take that
+            # window below zero (RFC 7540 6.9.2), which is where it has to be afterwards
+            try:
+                h.block_prefix = hm.table_size_update(min(local[1], 4096))
+                sid1 = h.reach('open')
+                ok1 = True
+                if not e_client:
+                    ok1 = t.call('send_headers', sid1, RESP).ok
+                left = rng.choice([100, 16384, 40000, 65535])
+                while ok1 and left > 0:
+                    n = min(left, remote.get(5, 16384), t.call('local_flow_control_window', sid1).value or 0)
+                    if n <= 0:
+                        break
+                    ok1 = t.call('send_data', sid1, b'w' * n).ok
+                    left -= n
+                rep.count('stream_with_used_send_window_at_remote_settings')
+            except AssertionError:
+                pass
         win_before = {}
         for sid0, sobj in list(getattr(h.c, 'streams', {}).items()):
             stn = getattr(getattr(getattr(sobj, 'state_machine', None), 'state', None), 'name', '')
@@ -366,6 +465,8 @@ def run_case(idx, rng, tier, rep):
                 if wb is None or wa is None:
                     continue
                 rep.count('stream_send_windows_checked_after_remote_iws')
+                if wb + delta < 0:
+                    rep.count('stream_send_window_expected_negative')
                 if wa != wb + delta:
                     stn = getattr(getattr(getattr(sobj, 'state_machine', None), 'state', None), 'name', '?')
                     return fail('C11:remote-initial-window-size-not-applied-to-stream:%s' % stn,
